@@ -126,10 +126,33 @@ fn soundness(rng: &mut Rng, st: &mut Stats) {
     for _ in 0..3 {
         let intent = gen_intent(rng, &spec, &io);
         let (lvl, li, inherited) = reached(&spec, &intent, vec![]);
-        if !new_arg_may_start(lvl, li) {
+        // inside a multi-valued positional whose minimum is met an option may start but a
+        // subcommand may not (the parser keeps reading values): candidates are judged there,
+        // coverage is not
+        let pos_open_min_met = li.external.is_none()
+            && !lvl.has(Setting::SubcommandPrecedenceOverArg)
+            && matches!(li.items.last(), Some(Item::Pos { arg, toks }) if {
+                let a = &lvl.args[*arg];
+                let (lo, hi) = a.eff_num_args();
+                hi > 1 && toks.len() >= lo && !a.allow_hyphen && !a.allow_negative && !a.last && a.terminator.is_none()
+            });
+        let completeness = new_arg_may_start(lvl, li);
+        if !completeness && !pos_open_min_met {
             st.count("premise.pending-value");
             continue;
         }
+        if !completeness {
+            st.count("stratum.inside-multi-valued-positional");
+        }
+        let depth = {
+            let mut d = 0;
+            let mut cur = &intent;
+            while let Some((_, ch)) = &cur.sub {
+                d += 1;
+                cur = ch;
+            }
+            d
+        };
         let style = Style::random(rng);
         let r = render(rng, &spec, &intent, &style);
         if r.argv.iter().any(|t| t == "--") {
@@ -140,10 +163,13 @@ fn soundness(rng: &mut Rng, st: &mut Stats) {
             Some("after-flag-subcommand")
         } else if r.features.iter().any(|f| *f == "prefix.long" || *f == "sub.prefix") {
             Some("after-inferred-prefix")
-        } else if r.features.iter().any(|f| *f == "alias.long-hidden" || *f == "alias.short-hidden") {
-            Some("after-hidden-alias")
         } else if r.features.iter().any(|f| *f == "value.negative-number") {
             Some("after-negative-number-value")
+        } else if r.features.iter().any(|f| *f == "terminator") {
+            Some("after-value-terminator")
+        } else if r.features.iter().any(|f| *f == "alias.long-hidden" || *f == "alias.short-hidden") {
+            // (monitored, silent so far: the least specific stratum goes last)
+            Some("after-hidden-alias")
         } else {
             None
         };
@@ -251,10 +277,48 @@ fn soundness(rng: &mut Rng, st: &mut Stats) {
                         );
                         break;
                     }
+                    Ok(Ok(m)) => {
+                        // accepted *as such*: the subcommand is dispatched / the option is set at that level
+                        let mut lm = &m;
+                        let mut ok = true;
+                        for _ in 0..depth {
+                            match lm.subcommand() {
+                                Some((_, sm)) => lm = sm,
+                                None => {
+                                    ok = false;
+                                    break;
+                                }
+                            }
+                        }
+                        if ok {
+                            if let Some(sname) = id.strip_prefix("command::") {
+                                st.count("soundness.command-dispatch-checked");
+                                if lm.subcommand_name() != Some(sname) {
+                                    st.violation(
+                                        format!("engine:subcommand-candidate-not-dispatched{}", suffix),
+                                        format!("{} ({}) parses, but level {:?} dispatches {:?} for probe {} | {}", v, id, lvl.name, lm.subcommand_name(), show_argv(&probe), ctx()),
+                                    );
+                                    break;
+                                }
+                            } else if let Some(aid) = id.strip_prefix("arg::") {
+                                st.count("soundness.option-source-checked");
+                                if lm.try_contains_id(aid).is_ok() && lm.value_source(aid) != Some(clap::parser::ValueSource::CommandLine) {
+                                    st.violation(
+                                        format!("engine:option-candidate-not-read-as-option{}", suffix),
+                                        format!("{} ({}) parses, but {} is not set from the command line at level {:?} for probe {} | {}", v, id, aid, lvl.name, show_argv(&probe), ctx()),
+                                    );
+                                    break;
+                                }
+                            }
+                        }
+                    }
                     _ => {}
                 }
             }
             // completeness
+            if !completeness {
+                continue;
+            }
             let dashy = w.is_empty() || w.starts_with('-');
             if dashy && !flag_sub_spelling {
                 for a in &all_args {
